@@ -171,6 +171,24 @@ def serveConn {σ : Type} : List (HandlerEnv σ) → σ → List HttpOut × σ
         if e.hasDispatcher then ((o :: (serveConn rest s').1), (serveConn rest s').2)
         else ([o], s')
 
+/-! ## delayed operations of the provider: `ScoOperationsRegistry.handle_operation_request`
+
+The request thread puts the operation on the worker's bounded queue with `put(.., timeout=1)`; `queue.Full` is answered with
+InvocationState Fail. The worker takes one item at a time and runs its handler. -/
+
+inductive InvState
+  | wait | failed
+deriving DecidableEq, Repr
+
+/-- one Set request while `queued` operations are waiting in a queue of `cap` slots: the answer and the new queue length -/
+def handleOperationRequest (cap queued : Nat) : InvState × Nat :=
+  if queued < cap then (.wait, queued + 1) else (.failed, queued)
+
+/-- a burst of `n` requests while the worker is busy with a handler that does not return (nothing leaves the queue) -/
+def opBurst (cap : Nat) : Nat → Nat → List InvState
+  | _, 0 => []
+  | queued, n + 1 => (handleOperationRequest cap queued).1 :: opBurst cap (handleOperationRequest cap queued).2 n
+
 /-! ## parser construction sites (the table itself is generated) -/
 
 structure ParserSite where
